@@ -176,6 +176,20 @@ CLAIMED.update({
   ref="DESIGN.md 4/C11, 9"),
 })
 
+CLAIMED.update({
+ "C16": dict(
+  text="Deductive proof of: (1) key reach: PrivateEncryptionKeyCandidates emits one slot per entry of the author's candidate list, in list order, "
+       "slot i holding the public key of candidate list[i] (loop invariant), and getPrivateKeyPackageIndex returns the first position of the "
+       "recipient's index in that same list and finds it whenever it is listed - so every listed recipient looks up a slot encrypted for its own key; "
+       "(2) no duplicates: the closure every per-candidate flip list passes through returns a list without repetitions, never longer than its "
+       "input; contains/getAuthorsIndexes are exact (author indexes in range, ascending); (3) determinism mechanism: appendAdditionalCandidates, "
+       "fillAuthorsQueue and GetFlipsDistribution each create their generator themselves, seeded with exactly the published function of the "
+       "first 8 seed bytes (obligation at the rand.NewSource call site), so no generator is handed in or shared between shards.",
+  note="Not decided: in-range/quota/non-empty-long-list properties of GetFlipsDistribution and the author distribution loops (container/list queues), "
+       "ECIES encryption/decryption, full determinism as a function (only the seeding mechanism). Trusted: math/rand is a function of its seed.",
+  ref="DESIGN.md 4/C16, 9"),
+})
+
 PENDING = {
 }
 
